@@ -9,6 +9,7 @@ structure definition (it never looks at the stream).
 from __future__ import annotations
 
 import datetime
+import re as _re
 import random as _real_random
 import json as _json
 import string
@@ -266,6 +267,10 @@ def tokens(s: str):
         if lit:
             out.append(("L", lit))
         if field is not None:
+            m = _re.fullmatch(r"0(\d+)d", spec or "")
+            if field == "idx" and m and not conv:
+                out.append(("P", int(m.group(1))))
+                continue
             if spec or conv or field not in ("idx", "hier_idx"):
                 raise ValueError(f"template outside the modelled domain: {s!r}")
             out.append(("I",) if field == "idx" else ("H",))
@@ -273,7 +278,8 @@ def tokens(s: str):
 
 
 def coq_tmpl(s):
-    return H.coq_list(f"Lit {H.coq_text(t[1])}" if t[0] == "L" else ("Idx" if t[0] == "I" else "HierIdx") for t in tokens(s))
+    return H.coq_list(f"Lit {H.coq_text(t[1])}" if t[0] == "L" else ("Idx" if t[0] == "I" else "HierIdx" if t[0] == "H" else f"IdxPad {t[1]}%nat")
+                      for t in tokens(s))
 
 
 def coq_q(q):
@@ -393,6 +399,9 @@ def expand_str(s, i, path):
             out.append("}"); k += 2
         elif s.startswith("{idx}", k):
             out.append(str(i)); k += 5
+        elif _re.match(r"\{idx:0\d+d\}", s[k:]):
+            m = _re.match(r"\{idx:0(\d+)d\}", s[k:])
+            out.append(str(i).zfill(int(m.group(1)))); k += m.end()
         elif s.startswith("{hier_idx}", k):
             out.append(".".join(str(x) for x in path)); k += 10
         else:
@@ -688,7 +697,7 @@ class Prop:
         "randrange(a,b)=a+n mod (b-a), random()=(n mod d)/d, uniform(a,b)=a+(b-a)*random(), sample = index n mod total into the expanded population",
         "floats are fed exactly representable values (dyadic rationals), so float arithmetic in uniform() is exact",
         "D39 (domain): the relation graph restricted to relations that may create a child is acyclic",
-        "domain: :count resolves to int/bool/None; :factory is DictWrapper or a keyword-argument class of the harness; :callback is absent or one of two families (set key to int, delete key); templates use only {idx}, {hier_idx}, {{, }}",
+        "domain: :count resolves to int/bool/None; :factory is DictWrapper or a keyword-argument class of the harness; :callback is absent or one of two families (set key to int, delete key); templates use only {idx}, {idx:0Nd}, {hier_idx}, {{, }}",
     ]
     manifest = dict(
         text=("Machine-checked theorems (Coq 8.16, no axioms) about an executable model of nutree/tree_generator.py in which the global "
@@ -854,8 +863,8 @@ class Prop:
 # ---------------------------------------------------------------------------
 PROBS = [[1, 1], [1, 1], [1, 2], [3, 4], [1, 4], [0, 1], [5, 8]]
 CPROBS = [[1, 1], [1, 1], [1, 1], [1, 1], [3, 4], [1, 2], [0, 1]]
-STRS = ["plain", "T {idx}", "{hier_idx}", "N{idx}/{hier_idx}", "b{{x}}{idx}", "", "Zoë {idx}", "H{hier_idx}", "{hier_idx}:{idx}"]
-TEXTS = ["", "lorem", "x{idx}", "h {hier_idx}.", "Ünï {{q}}"]
+STRS = ["plain", "T {idx}", "{hier_idx}", "N{idx}/{hier_idx}", "b{{x}}{idx}", "", "Zoë {idx}", "H{hier_idx}", "{hier_idx}:{idx}", "#{idx:03d}", "{idx:01d}-{idx:02d}"]
+TEXTS = ["", "lorem", "x{idx}", "h {hier_idx}.", "Ünï {{q}}", "q{idx:04d}"]
 KEYS = ["title", "n", "x", "flag", "when", "txt", "self", "dict_inst"]
 D0 = datetime.date(2020, 1, 1).toordinal()
 
